@@ -221,17 +221,17 @@ func (s *verifSink) Write(p []byte) (int, error) {
 // zcWriter: writes through the buffer model, then Flush twice with arbitrary short writes:
 // the sink's stream is exactly the flushed stream, once, in order.
 //
-//verif:bounds 1 writer op of 8 kinds (sizes <= 8 MB) then 2 x (Flush with arbitrary short write); then a further op and Flush
+//verif:bounds Malloc(1..4096), 1 writer op of 8 kinds (sizes <= 8193), then 2 x Flush with arbitrary short write / error, a further Malloc in between
 //verif:param 0 7
 //verif:loop 12
 func verifHarness_C16_zcwriter(param int) {
-	sink := &verifSink{got: verifRopeNew(), maxCalls: 3}
+	sink := &verifSink{got: verifRopeNew(), maxCalls: 2}
 	w := newZCWriter(sink)
-	v := &verifLB{b: w.buf, segs: verifRopeNew(), pend: verifRopeNew(), argLo: -1, argHi: verifMaxLen}
+	v := &verifLB{b: w.buf, segs: verifRopeNew(), pend: verifRopeNew(), argLo: -1, argHi: verifMaxLen, maxW: 8193}
 	ops := [8]int{verifOpMalloc, verifOpWriteBinary, verifOpWriteString, verifOpWriteByte, verifOpWriteDirect, verifOpMallocAck, verifOpAppendPending, verifOpAppend}
 	v.opMallocR(1, 4096)
 	v.step(ops[param])
-	for i := 0; i < 3; i++ {
+	for i := 0; i < 2; i++ {
 		// model bookkeeping of Flush, then the real zcWriter.Flush
 		verifRopeMove(v.segs, v.pend)
 		v.flushed += v.pendN
@@ -244,7 +244,7 @@ func verifHarness_C16_zcwriter(param int) {
 		v.consumed += took
 		verifAssert(err != nil || v.consumed == v.flushed, "C16/flush-nil-but-bytes-left")
 		verifAssert(w.buf.Len() == v.flushed-v.consumed, "C16/writer-len")
-		if i == 1 {
+		if i == 0 {
 			v.opMallocR(1, 4096)
 		}
 	}
